@@ -162,20 +162,33 @@ def _check_param_store(ctx, repo):
     f = repo.fn("interpreter:KlongContext.__setitem__")
     ctx.instance("C03-R7", f.fq)
     kparam = f.params()[1]
+    from ..common import value_alternatives, says_not_none
+    from ..model import enclosing_stmt
+
+    def innermost(e):
+        return isinstance(e, ast.Subscript) and dotted(e.value) == "self._context" and isinstance(e.slice, ast.Constant) and e.slice.value == 0
+    # every store into a scope: `<scope>[k] = v` or set_context_var(<scope>, k, v); the scope is the innermost one or one found some other way
     walks = []
-    for lp in [n for n in walk_local(f.node) if isinstance(n, ast.For) and dotted(lp_iter(n)) == "self._context"]:
-        dvars = {x.id for x in ast.walk(lp.target) if isinstance(x, ast.Name)}
-        for n in walk_local(lp):
-            if isinstance(n, ast.Subscript) and isinstance(n.ctx, (ast.Store, ast.Del)) and isinstance(n.value, ast.Name) and n.value.id in dvars:
-                walks.append(n)
-            if isinstance(n, ast.Call) and callee_name(n) == "set_context_var" and n.args and isinstance(n.args[0], ast.Name) and n.args[0].id in dvars:
-                walks.append(n)
-    ctx.floor("C03-R7", "stores into an enclosing scope found by walking the scope stack", len(walks), 1)
-    for n in walks:
+    for n in walk_local(f.node):
+        if isinstance(n, ast.Subscript) and isinstance(n.ctx, (ast.Store, ast.Del)) and not innermost(n.value) and src(n.slice) == kparam:
+            walks.append((n, n.value))
+        if isinstance(n, ast.Call) and callee_name(n) == "set_context_var" and n.args and not innermost(n.args[0]):
+            walks.append((n, n.args[0]))
+    ctx.floor("C03-R7", "stores into a scope other than the innermost one", len(walks), 1)
+
+    def not_reserved(e, pol):
+        return isinstance(e, ast.Compare) and len(e.ops) == 1 and src(e.left) == kparam and "reserved_fn_symbols" in src(e.comparators[0]) and \
+            ((isinstance(e.ops[0], ast.NotIn) and pol) or (isinstance(e.ops[0], ast.In) and not pol))
+    for n, scope in walks:
         facts = atoms_at(n, f.node)
-        ok = any(isinstance(e, ast.Compare) and len(e.ops) == 1 and src(e.left) == kparam and "reserved_fn_symbols" in src(e.comparators[0]) and
-                 ((isinstance(e.ops[0], ast.NotIn) and pol) or (isinstance(e.ops[0], ast.In) and not pol)) for e, pol in facts)
-        ctx.ob("C03-R7", f.fq, f"the scope-walking store `{src(n)[:40]}` happens only for names that are not parameter names", ok, node=n, construct="scope walk for a parameter name",
+        ok = any(not_reserved(e, pol) for e, pol in facts)
+        if not ok and isinstance(scope, ast.Name):
+            # the scope was chosen earlier: every way of choosing it that is compatible with the guards here must have excluded parameter names
+            alts = value_alternatives(scope, f.node, enclosing_stmt(n))
+            known_not_none = any(says_not_none(e, pol, scope.id) for e, pol in facts)
+            live = [(v, cs) for v, cs in alts if not (known_not_none and isinstance(v, ast.Constant) and v.value is None)]
+            ok = bool(live) and all(any(not_reserved(a, ap) for t, pl in cs for a, ap in split_conj(t, pl)) for v, cs in live)
+        ctx.ob("C03-R7", f.fq, f"the store `{src(n)[:40]}` into an enclosing scope happens only for names that are not parameter names", ok, node=n, construct="scope walk for a parameter name",
                msg="a store to x, y or z searches the enclosing scopes first: a callee that assigns to a parameter name it did not receive overwrites its CALLER's argument (or a global of that name) instead of creating its own")
 
 
